@@ -228,6 +228,12 @@ def decide_path(s, guards, leaf):
     sign2 = upd.get('sign', kw.get('sign'))
     value2 = upd.get('value', kw.get('value'))
     children2 = upd.get('propositions', kw.get('propositions'))
+    if sign2 is None or value2 is None or children2 is None:
+        miss = [n for n, v in (('sign', sign2), ('value', value2), ('propositions', children2)) if v is None]
+        res['aff'] = res['safe'] = ('violation', f"the returned AtLeast(...) is built without {miss}")
+        res['idrule'] = ('ok', '')
+        res['digest'] = hashlib.sha256(repr(base).encode()).hexdigest()[:10]
+        return res
     res['digest'] = hashlib.sha256(repr((sign2, value2, children2)).encode()).hexdigest()[:10]
     res['triple'] = f"sign'={T.show(sign2)}, value'={T.show(value2)}, children'={T.show(children2)[:300]}"
     if eff:
